@@ -15,7 +15,7 @@ META = {
     'required_obs': {'quick': ['code-' + c for c in CODES] + ['uvari-width-1', 'uvari-width-2', 'uvari-width-4',
                                'rejected-out-of-range', 'rejected-non-ascii', 'rejected-too-long', 'cache-collision-pair',
                                'e2e-contract-evals', 'obname-copy>0', 'obname-origin-2byte', 'obname-after-identity-change', 'dtime-utc-year-differs', 'numpy-scalar-zero-pair', 'list-with-unrepresentable-element',
-                               'list-round-trip']},
+                               'list-round-trip', 'dtime-fold-pair', 'dtime-naive-after-zone-change']},
     'exhaustive_windows': {'quick': ['UVARI: every value 0..20000 and 2^30-3..2^30+3', 'USHORT/SSHORT: whole domain +-2',
                                      'IDENT lengths 0..260', 'STATUS -2..3'],
                            'thorough': ['UVARI: every value 0..70000', 'UNORM/SNORM whole domain +-2', 'IDENT/ASCII lengths 0..300']},
@@ -229,6 +229,57 @@ def run_case(case):
             if abs(inst) > 1.0 or d[1] != 2:
                 vio.append({'prop': PROP, 'kind': 'encoding-mismatch', 'mech': 'mismatch:DTIME',
                             'detail': f'{t.isoformat()} decodes to {d} ({inst} ms off, tz code {d[1]})'})
+        # the same date-time VALUE encoded again under other circumstances: equal (and equally hashed) date-times that are
+        # different instants -- `fold` of an aware date-time in a zone with a repeated hour; a naive date-time after the
+        # process's local zone has changed
+        import os
+        import time as _time
+
+        class _RepeatedHour(dt.tzinfo):
+            def utcoffset(self, d_):
+                return dt.timedelta(hours=2 if not d_.fold else 1)
+
+            def dst(self, d_):
+                return dt.timedelta(hours=1 if not d_.fold else 0)
+
+            def tzname(self, d_):
+                return 'RH'
+        zone = _RepeatedHour()
+        for j in range(3):
+            base = dt.datetime(2021, 10, 31, 2, 30, r.randrange(60), tzinfo=zone)
+            for fold in ((0, 1) if j % 2 == 0 else (1, 0)):
+                t = base.replace(fold=fold)
+                u = t.astimezone(dt.timezone.utc)
+                got = real('DTIME', t)
+                evals[0] += 1
+                bump('dtime-fold-pair')
+                if got[0] == 'ok':
+                    d = rp66.decode_exact(21, got[1])
+                    if (d[0], d[2], d[3], d[4], d[5], d[6]) != (u.year, u.month, u.day, u.hour, u.minute, u.second):
+                        vio.append({'prop': PROP, 'kind': 'encoding-mismatch', 'mech': 'mismatch:DTIME:fold',
+                                    'detail': f'{t.isoformat()} fold={fold} is {u.isoformat()}, encoded as {d}'})
+        old_tz = os.environ.get('TZ')
+        try:
+            for j in range(3):
+                t = dt.datetime(2022, 3, 4, 12, 0, r.randrange(60))
+                for tzname in ('UTC0', 'JST-9', 'EST5'):
+                    os.environ['TZ'] = tzname
+                    _time.tzset()
+                    u = t.astimezone(dt.timezone.utc)
+                    got = real('DTIME', t)
+                    evals[0] += 1
+                    bump('dtime-naive-after-zone-change')
+                    if got[0] == 'ok':
+                        d = rp66.decode_exact(21, got[1])
+                        if (d[2], d[3], d[4], d[5], d[6]) != (u.month, u.day, u.hour, u.minute, u.second):
+                            vio.append({'prop': PROP, 'kind': 'encoding-mismatch', 'mech': 'mismatch:DTIME:local-zone-changed',
+                                        'detail': f'naive {t.isoformat()} under TZ={tzname} is {u.isoformat()}, encoded as {d}'})
+        finally:
+            if old_tz is None:
+                os.environ.pop('TZ', None)
+            else:
+                os.environ['TZ'] = old_tz
+            _time.tzset()
     elif k == 'obname':
         from dliswriter import DLISFile
         r = gen.rng(seed, PROP, case['stratum'], case['index'])
